@@ -118,6 +118,8 @@ func init() {
 			obs = append(obs, c.PaletteReadResets()...)
 			obs = append(obs, c.PaletteSizeBound("level")...)
 			obs = append(obs, c.CompressorClosed("save/...", "level/...")...)
+			// block entities without NBT go through pk.NBTField: absent means reset, also in a re-used chunk
+			obs = append(obs, c.EndSentinelSwallow("net/packet")...)
 			return obs
 		},
 	}
@@ -161,6 +163,7 @@ func init() {
 			obs = append(obs, c.HandlerKeepsBuffer("bot/...")...)
 			obs = append(obs, c.GoroutineErrorsKept("bot")...)
 			obs = append(obs, c.GateRepliesRead()...)
+			obs = append(obs, c.QueueBeforeStoredError("bot")...)
 			// the bot's own dispatch on what the peer sent: indexes and sizes taken from a received packet
 			obs = append(obs, c.TLGObs(pkgPred("bot"), pkgPred("bot"), false)...)
 			obs = append(obs, c.Pools("net/packet")...)
